@@ -393,9 +393,14 @@ def result (s : Str) (S : Pivs) (keys : List Nat) : Res (List (Nat × Nat)) :=
 def permVec (n : Nat) (idx : List Nat) : Res (List Nat) :=
   if idx.all (· < n) then ok (idx ++ (List.range n).filter (fun i => !idx.contains i)) else panic
 
-/-- `inv[j] = i` for `(i, j) in vec.enumerate()`: the last position of `j` in `vec` (0 if absent) -/
-def invAt (vec : List Nat) (j : Nat) : Nat :=
-  (vec.zipIdx.foldl (fun acc (p : Nat × Nat) => if p.1 == j then p.2 else acc) 0)
+/-- `for (i, j) in vec.into_iter().enumerate() { inv[j] = i }`, read at `j`: the loop from position `pos`
+with the current content `acc` of `inv[j]` -/
+def invFrom : List Nat → Nat → Nat → Nat → Nat
+  | [], _, _, acc => acc
+  | x :: xs, pos, j, acc => invFrom xs (pos + 1) j (if x == j then pos else acc)
+
+/-- `inv[j]` after the loop (`inv` starts as `vec![0; n]`) -/
+def invAt (vec : List Nat) (j : Nat) : Nat := invFrom vec 0 j 0
 
 /-! ### checkers applied to the real code's output -/
 
